@@ -257,3 +257,17 @@ CASES += [
          old="   arg_hdl->setCardinality();\n\n   return internAddArgument( arg_hdl, key, desc);\n} // Handler::addArgumentListArgVars",
          new="   return internAddArgument( arg_hdl, key, desc);\n} // Handler::addArgumentListArgVars"),
 ]
+
+CASES += [
+    dict(id='c08-crosscheck-own-containers-only', prop='C08', file=H, expect='R*',
+         old="   mArguments.checkArgMix(    ownName, otherName, otherAH.mSubGroupArgs);", new="   mArguments.checkArgMix(    ownName, otherName, mSubGroupArgs);"),
+    dict(id='c08-crosscheck-skips-all-but-self', prop='C08', file=G, expect='R*',
+         old="      // don't have the handler compare against itself\n      if (stored_group.mpArgHandler.get() == mod_handler)\n         continue; // for",
+         new="      // don't have the handler compare against itself\n      if (stored_group.mpArgHandler.get() != mod_handler)\n         continue; // for"),
+    dict(id='c08-crosscheck-passes-itself', prop='C08', file=G, expect='R*',
+         old="      mod_handler->crossCheckArguments( own_name, stored_group.mName,\n                                        *stored_group.mpArgHandler);",
+         new="      mod_handler->crossCheckArguments( own_name, stored_group.mName,\n                                        *mod_handler);"),
+    dict(id='c08-keyowner-asks-first-handler-only', prop='C08', file=G, expect='R*',
+         old="      auto const  handler = stored_group.mpArgHandler.get();\n\n      if ((handler->mArguments.findExactArg( key) != nullptr)",
+         new="      auto const  handler = mArgGroups.front().mpArgHandler.get();\n\n      if ((handler->mArguments.findExactArg( key) != nullptr)"),
+]
